@@ -207,7 +207,3 @@ def install(eng):
         loops={1: Loop(seen="se", inv=INV + ["all(e in cache for e in se)"])},
         raises=EXC, uses=USES, cover_hints=HINTS, serves=["C02", "C05", "C09"])
 
-    from replay import enum_schedule
-    for k in ("gwf.scheduling:schedule", "gwf.scheduling:schedule._schedule",
-              "gwf.scheduling:schedule._cached_schedule"):
-        eng.replayers[k] = enum_schedule.replay
